@@ -743,7 +743,17 @@ func writeFieldReadByter(name string, typ FieldType, w *iohelp.ErrorWriter, sett
 			ln = getLineWithTabs(settings.typeByteReaders[typ.Map.Key], depth+1, depthName("k", depth), typ.goString(settings))
 		}
 		w.SafeWrite([]byte(strings.Replace(ln, "=", ":=", 1)))
-		writeFieldReadByter("("+name+")["+depthName("k", depth)+"]", typ.Map.Value, w, settings, depth+1, safe)
+		elem := "(" + name + ")[" + depthName("k", depth) + "]"
+		if typ.Map.Value.Array != nil || typ.Map.Value.Map != nil {
+			// a container value is filled in a local and stored afterwards: reading
+			// m[k] back while filling it yields the zero value when k is NaN
+			tmp := depthName("mv", depth)
+			writeLineWithTabs(w, "var "+tmp+" "+typ.Map.Value.goString(settings), depth+1)
+			writeFieldReadByter(tmp, typ.Map.Value, w, settings, depth+1, safe)
+			writeLineWithTabs(w, elem+" = "+tmp, depth+1)
+		} else {
+			writeFieldReadByter(elem, typ.Map.Value, w, settings, depth+1, safe)
+		}
 		writeLineWithTabs(w, "}", depth)
 	} else {
 		simpleTyp := typ.Simple
